@@ -12,507 +12,366 @@ from ..util import require_func, calls_in, call_attr, is_name, const_str, kwarg,
 DEFAULT_CRITERIA = ["mc.seqid", "mc.overlap_end_inclusive", "mc.strand", "mc.feature_type"]
 
 
-def enumerate_paths(cfg, start, stops, limit=400):
-    """Simple paths start ->* any node in `stops` (edges labelled)."""
-    out = []
-    stack = [(start, [(start, None)])]
-    while stack:
-        n, path = stack.pop()
-        if len(out) > limit:
-            break
-        for m, l in cfg.succ[n]:
-            if l == "exc":
-                continue
-            if m in stops:
-                out.append(path + [(m, l)])
-                continue
-            if any(m == x for x, _ in path):
-                continue
-            stack.append((m, path + [(m, l)]))
-    return out
+def _feat(name, chrom="chr1", start=1, end=1, strand="+", ft="exon", **extra):
+    from ..absint import Opaque
+    F = Opaque(name, "Feature")
+    F.attrs.update(dict(id=name, seqid=chrom, source="src_" + name, featuretype=ft, start=start, end=end, score=".", strand=strand, frame=".",
+                        attributes={"ID": [name]}, extra=[], bin=1, dialect=None, keep_order=False, sort_attribute_values=False, file_order=None))
+    F.attrs.update(extra)
+    return F
 
 
-def roles(ctx, f):
-    loops = [n for n in f.node.body if isinstance(n, ast.For)]
-    ctx.require(len(loops) == 1, "merge() no longer has a single top-level loop")
-    loop = loops[0]
-    lv = loop.target.id
-    fin = [c for c in calls_in(f.node) if is_name(c.func, "_finalize_merge")]
-    ctx.require(fin, "merge() no longer finalises through _finalize_merge")
-    after = [c for c in fin if loop not in list(parents(c))]
-    ctx.require(after and len(after[0].args) == 2, "merge() does not emit a pending head after the loop")
-    head, children = norm(after[0].args[0]), norm(after[0].args[1])
-    return loop, lv, head, children, after[0]
-
-
-def path_events(cfg, path, lv, head, children):
-    ev = []
-    for (nid, label), nxt in zip(path, path[1:] + [(None, None)]):
-        node = cfg.nodes[nid]
-        st = node.stmt
-        out_label = nxt[1]
-        if node.kind == "test" and isinstance(st, ast.If):
-            ev.append(("test", norm(st.test), out_label == "true", st))
-            continue
-        if node.kind != "stmt" or st is None:
-            continue
-        for y in [x for x in ast.walk(st) if isinstance(x, ast.Yield)]:
-            v = y.value
-            if isinstance(v, ast.Call) and is_name(v.func, "_finalize_merge") and len(v.args) == 2:
-                ev.append(("emit", norm(v.args[0]), norm(v.args[1]), st))
-            else:
-                ev.append(("emit-raw", norm(v) if v is not None else None, None, st))
-        if isinstance(st, ast.Assign) and len(st.targets) == 1:
-            t = norm(st.targets[0])
-            if t == head:
-                if is_name(st.value, lv):
-                    ev.append(("head:=item", st))
-                elif any(isinstance(x, ast.Name) and x.id == head for x in ast.walk(st.value)):
-                    ev.append(("head-transfer", st))
-                else:
-                    ev.append(("head:=other", norm(st.value), st))
-            elif t == children:
-                if isinstance(st.value, ast.List):
-                    ev.append(("children:=", [norm(e) for e in st.value.elts], st))
-                else:
-                    ev.append(("children:=?", norm(st.value), st))
-            elif t == "last_id":
-                ev.append(("id-reset" if isinstance(st.value, ast.Constant) and st.value.value is None else "id-new", st))
-            elif isinstance(st.targets[0], ast.Attribute) and norm(st.targets[0].value) == head:
-                ev.append(("head-store", st.targets[0].attr, st))
-            elif isinstance(st.targets[0], ast.Subscript) and norm(st.targets[0].value) == head:
-                ev.append(("head-store", "[%s]" % norm(st.targets[0].slice), st))
-        elif isinstance(st, ast.AugAssign):
-            if isinstance(st.target, ast.Attribute) and norm(st.target.value) == head:
-                ev.append(("head-store", st.target.attr, st))
-        elif isinstance(st, ast.Expr) and isinstance(st.value, ast.Call):
-            c = st.value
-            if call_attr(c) == "append" and norm(c.func.value) == children and c.args:
-                ev.append(("children+=", norm(c.args[0]), st))
-    return ev
-
-
-def r1_r4_r5(ctx):
-    f = require_func(ctx, "interface.FeatureDB.merge")
-    cfg = cfg_of(f)
-    loop, lv, head, children, final_emit = roles(ctx, f)
-    hn = cfg.node_for(loop).id
-    starts = [t for t, l in cfg.succ[hn] if l == "true"]
-    ctx.require(len(starts) == 1, "merge loop entry")
-    paths = enumerate_paths(cfg, starts[0], {hn, cfg.exit.id, cfg.raise_exit.id})
-    # prepend the virtual start so the first node's own test outcome is visible
-    ctx.floor("R1", len(paths), 4, "paths through the merge loop body")
-    ctx.extra["loop_body_paths"] = len(paths)
-    crit_tests = set()
-    for p in paths:
-        ev = path_events(cfg, p, lv, head, children)
-        desc = " ; ".join(_show(e) for e in ev)
-        head_none = None
-        for e in ev:
-            if e[0] == "test" and e[1] in ("%s is None" % head, "not %s" % head):
-                head_none = e[2]
-            if e[0] == "test" and e[1] in ("%s is not None" % head, head):
-                head_none = not e[2]
-        pending = (head_none is False) or head_none is None
-        head_emitted = False
-        item = set()
-        reset_children = reset_id = False
-        boundary = False
-        problems = []
-        unchecked_empty = any(e[0] == "test" and e[1] == "len(%s) == 0" % children and e[2] for e in ev)
-        for e in ev:
-            k = e[0]
-            if k == "emit":
-                if e[1] == head:
-                    head_emitted = True
-                    pending = False
-                    if e[2] != children and not unchecked_empty:
-                        problems.append("pending head emitted with %s instead of its children" % e[2])
-                elif e[1] == lv:
-                    item.add("emitted")
-                    if e[2] not in ("no_children", "()", "tuple()", "[]"):
-                        problems.append("item emitted alone but with children %s" % e[2])
-                else:
-                    problems.append("emits %s" % e[1])
-            elif k == "emit-raw":
-                problems.append("yields %s without finalising" % e[1])
-            elif k == "head:=item":
-                if pending and not head_emitted:
-                    problems.append("a pending head is overwritten without having been emitted")
-                if pending or head_emitted:
-                    boundary = True
-                pending = True
-                head_emitted = False
-                item.add("head")
-            elif k == "head:=other":
-                problems.append("head re-bound to %s" % e[1])
-            elif k == "children:=":
-                reset_children = True
-                if lv in e[1]:
-                    item.add("child")
-            elif k == "children+=":
-                if e[1] == lv:
-                    item.add("child")
-            elif k == "id-reset":
-                reset_id = True
-            elif k == "test" and _is_join_test(e[3].test, head, lv):
-                crit_tests.add((e[1], e[3]))
-        retained = item & {"head", "child"}
-        if "emitted" in item and retained:
-            problems.append("item is both emitted alone and kept (%s)" % sorted(retained))
-        if not item:
-            problems.append("item is neither emitted nor kept: it is lost")
-        if boundary and not reset_children and not unchecked_empty:
-            problems.append("a new run starts without resetting the children list")
-        if (boundary or "emitted" in item) and not reset_id:
-            problems.append("a run boundary does not reset last_id (the next run would reuse the previous id)")
-        for pr in problems:
-            rule = "R5" if "last_id" in pr else "R1"
-            ctx.ob(rule, False, "partition typestate of merge(): every input is emitted alone or kept in exactly one run; a pending head is "
-                   "emitted (with its children) before it is overwritten; run boundaries reset children and id", node=cfg.nodes[p[0][0]].stmt, func=f,
-                   sig="merge loop path: %s" % pr, detail="path: " + desc)
-        if not problems:
-            ctx.ob("R1", True, "loop-body path discharges the partition typestate", func=f, sig="path ok: " + " ; ".join(
-                _show(e) for e in ev if e[0] not in ("test", "head-store"))[:150], nontrivial=True)
-    # final emission after the loop
-    g = [norm(t) for t, pol in guards_of(final_emit, f.node) if pol]
-    ok = norm(final_emit.args[0]) == head and norm(final_emit.args[1]) == children and g in ([head], ["%s is not None" % head])
-    y = enclosing(final_emit, ast.Yield)
-    ctx.ob("R1", ok and y is not None, "after the loop a pending head is emitted with its children", node=final_emit, func=f,
-           sig="final emission %s under %s" % (norm(final_emit), g))
-    # ---- the join test: all criteria on (head, item, children)
-    ctx.ob("R1", len(crit_tests) >= 1, "joining a run is decided by the merge criteria on (run so far, feature)", func=f,
-           sig="%d criteria test(s) on (head, item)" % len(crit_tests))
-    for t, st in crit_tests:
-        tst = st.test
-        ok = isinstance(tst, ast.Call) and is_name(tst.func, "all") and isinstance(tst.args[0], (ast.GeneratorExp, ast.ListComp)) and \
-            norm(tst.args[0].generators[0].iter) == "merge_criteria" and not tst.args[0].generators[0].ifs and \
-            isinstance(tst.args[0].elt, ast.Call) and [norm(a) for a in tst.args[0].elt.args] == [head, lv, children] and \
-            is_name(tst.args[0].elt.func, tst.args[0].generators[0].target.id)
-        ctx.ob("R1", ok, "a feature joins exactly when every criterion accepts (run so far, feature, components)", node=st, func=f,
-               sig="join test %s" % t)
-        # the true branch appends, the false branch emits
-        app = [c for c in ast.walk(ast.Module(body=st.body, type_ignores=[])) if isinstance(c, ast.Call) and call_attr(c) == "append"
-               and norm(c.func.value) == children and c.args and is_name(c.args[0], lv)]
-        emits = [c for c in ast.walk(ast.Module(body=st.orelse, type_ignores=[])) if isinstance(c, ast.Call) and is_name(c.func, "_finalize_merge")]
-        ctx.ob("R1", bool(app) and bool(emits), "accept -> the feature is appended to the run; reject -> the run is emitted", node=st, func=f,
-               sig="join test branches: append=%s emit=%s" % (bool(app), bool(emits)), nontrivial=False)
-    # ------------------------------------------------------------------ R4
-    copies = [n for n in ast.walk(loop) if isinstance(n, ast.If) and norm(n.test) == "len(%s) == 1" % children]
-    ctx.ob("R4", len(copies) == 1, "the first merge of a run is recognised (len(children) == 1) so that the head can be copied", node=loop, func=f,
-           sig="%d copy guard(s) `len(children) == 1`" % len(copies))
-    if len(copies) == 1:
-        cg = copies[0]
-        rebinds = [n for n in cg.body if isinstance(n, ast.Assign) and norm(n.targets[0]) == head]
-        fresh = any(isinstance(n.value, ast.Call) and (call_attr(n.value) in ("_feature_returner", "copy", "deepcopy") or norm(n.value.func) in ("Feature", "copy.copy", "copy.deepcopy"))
-                    for n in rebinds)
-        ctx.ob("R4", fresh, "before its columns are changed the head is replaced by a fresh copy (the input object stays untouched)", node=cg, func=f,
-               sig="head copied through %s" % ([norm(n.value)[:50] for n in rebinds] or None))
-        cgn = cfg.node_for(cg).id
-        stores = []
-        for n in ast.walk(loop):
-            tg = n.targets if isinstance(n, ast.Assign) else [n.target] if isinstance(n, ast.AugAssign) else []
-            for t in tg:
-                b = t
-                while isinstance(b, (ast.Attribute, ast.Subscript)):
-                    b = b.value
-                if isinstance(b, ast.Name) and b.id == head and not isinstance(t, ast.Name):
-                    stores.append((n, t))
-        ctx.floor("R4", len(stores), 4, "stores into the head inside the merge loop")
-        for n, t in stores:
-            inside = cg in list(parents(n))
-            ok = cfg.dominates(cgn, cfg.node_for(n).id) and (inside and any(cfg.dominates(cfg.node_for(r).id, cfg.node_for(n).id) for r in rebinds
-                                                                         if isinstance(r.value, ast.Call) and call_attr(r.value) != "copy" or True) or not inside)
-            if inside:
-                # inside the copy block: must come after the re-binding to the fresh object
-                fr = [r for r in rebinds if isinstance(r.value, ast.Call) and call_attr(r.value) in ("_feature_returner", "deepcopy") or norm(r.value.func if isinstance(r.value, ast.Call) else r.value) in ("Feature", "copy.copy", "copy.deepcopy")]
-                ok = bool(fr) and cfg.dominates(cfg.node_for(fr[-1]).id, cfg.node_for(n).id)
-            ctx.ob("R4", ok, "a store into the head (%s) happens only after the copy guard of the merge branch" % norm(t), node=n, func=f,
-                   sig="store %s after the copy" % norm(t) if ok else "store %s can hit the caller's object (not dominated by the head copy)" % norm(t))
-        grows = [c for c in calls_in(loop) if call_attr(c) == "append" and norm(c.func.value) == children and c.args and is_name(c.args[0], lv)]
-        for c in grows:
-            ok = cfg.dominates(cgn, cfg.node_for(c).id)
-            ctx.ob("R4", ok, "the run only grows past one member after the copy guard (so len >= 2 implies the head is a copy)", node=c, func=f,
-                   sig="children.append(item) after the copy guard" if ok else "children grow before the copy guard", nontrivial=False)
-    # ------------------------------------------------------------------ R3
-    for attr, want in (("start", "min"), ("end", "max")):
-        upd = [n for n in ast.walk(loop) if isinstance(n, ast.Assign) and norm(n.targets[0]) == "%s.%s" % (head, attr)]
-        ctx.floor("R3", len(upd), 1, "updates of the run's %s" % attr)
-        for n in upd:
-            v = n.value
-            if isinstance(v, ast.Call) and is_name(v.func, want) and {norm(a) for a in v.args} == {"%s.%s" % (head, attr), "%s.%s" % (lv, attr)}:
-                ok = True
-                shown = norm(v)
-            else:
-                g = guards_of(n, loop)
-                tests = [t for t, pol in g if pol and isinstance(t, ast.Compare) and {"%s.%s" % (head, attr), "%s.%s" % (lv, attr)} == {norm(t.left), norm(t.comparators[0])}]
-                shown = "if %s: %s" % (norm(tests[0]) if tests else "?", norm(n))
-                ok = False
-                if tests and norm(v) in ("%s.%s" % (lv, attr), "%s.stop" % lv):
-                    def res(x):
-                        s = norm(x)
-                        return "h" if s == "%s.%s" % (head, attr) else "f" if s == "%s.%s" % (lv, attr) else None
-                    pr = py_pred(tests[0], res)
-                    fn = min if want == "min" else max
-                    ok = all((env["f"] if pr(env) else env["h"]) == fn(env["h"], env["f"]) for env in ({"h": a, "f": b} for a in range(4) for b in range(4)))
-            ctx.ob("R3", ok, "the run's %s becomes %s(run %s, feature %s)" % (attr, want, attr, attr), node=n, func=f, sig="run %s update: %s" % (attr, shown))
-
-
-def _is_join_test(t, head, lv):
-    """all(<crit>(head, item, ...) for <crit> in ...)"""
-    if isinstance(t, ast.Call) and is_name(t.func, "all") and t.args and isinstance(t.args[0], (ast.GeneratorExp, ast.ListComp)):
-        elt = t.args[0].elt
-        if isinstance(elt, ast.Call) and len(elt.args) >= 2 and norm(elt.args[0]) == head and is_name(elt.args[1], lv):
-            return True
-    return False
-
-
-def _show(e):
-    if e[0] == "test":
-        return "[%s%s]" % ("" if e[2] else "not ", e[1][:40])
-    if e[0] in ("emit",):
-        return "emit(%s,%s)" % (e[1], e[2])
-    if e[0] in ("children:=", "children+="):
-        return "%s%s" % (e[0], e[1])
-    return e[0] + (":" + str(e[1]) if len(e) > 2 and isinstance(e[1], str) else "")
+def _snap(F):
+    return repr(sorted(((k, (sorted(v.items()) if isinstance(v, dict) else v)) for k, v in F.attrs.items()), key=lambda kv: kv[0]))
 
 
 def r2(ctx):
-    m = ctx.proj.module("merge_criteria")
+    """Merge criteria: each shipped criterion (and each threshold factory's product) is evaluated abstractly on every pair of
+    intervals of a grid that is complete for the difference constraints involved, and compared with its specification."""
+    from ..absint import Interp, FuncVal, Unsupported
     for qual in ("interface.FeatureDB.merge", "interface.FeatureDB.merge_all", "interface.FeatureDB.children_bp"):
         f = require_func(ctx, qual)
         d = f.param_defaults().get("merge_criteria")
-        got = [norm(e) for e in d.elts] if isinstance(d, (ast.Tuple, ast.List)) else None
-        ctx.ob("R2", got == DEFAULT_CRITERIA, "%s defaults to (same seqid, overlapping or adjacent, same strand, same type)" % f.name, func=f,
-               sig="%s default criteria %s" % (f.name, got))
-    ctx.require(ctx.proj.modules["interface"].imports.get("mc") == "merge_criteria", "interface no longer imports merge_criteria as mc")
-    simple = {"seqid": "seqid", "strand": "strand", "feature_type": "featuretype"}
-    for name, fld in simple.items():
-        f = require_func(ctx, "merge_criteria." + name)
-        r = [n for n in ast.walk(f.node) if isinstance(n, ast.Return)]
-        ok = len(r) == 1 and isinstance(r[0].value, ast.Compare) and isinstance(r[0].value.ops[0], ast.Eq) and \
-            {norm(r[0].value.left), norm(r[0].value.comparators[0])} == {"acc.%s" % fld, "cur.%s" % fld}
-        ctx.ob("R2", ok, "criterion %s compares the %s of run and feature" % (name, fld), func=f, sig="%s: %s" % (name, norm(r[0].value) if r else None))
-    # interval criteria: compile and compare with the specification / check reflexivity
-    names = ["as_", "ae", "cs", "ce"]
-
-    def resolver(node):
-        s = norm(node)
-        return {"acc.start": "as_", "acc.end": "ae", "acc.stop": "ae", "cur.start": "cs", "cur.end": "ce", "cur.stop": "ce", "threshold": "th"}.get(s)
-    specs = {
-        "overlap_end_inclusive": lambda e: e["as_"] <= e["cs"] <= e["ae"] + 1,
-        "overlap_start_inclusive": lambda e: e["as_"] <= e["ce"] + 1 <= e["ae"] + 1,
-        "overlap_any_inclusive": lambda e: (e["as_"] <= e["cs"] <= e["ae"] + 1) or (e["as_"] <= e["ce"] + 1 <= e["ae"] + 1),
-        "exact_coordinates_only": lambda e: e["cs"] == e["as_"] and e["ce"] == e["ae"],
-    }
+        got = None
+        if isinstance(d, (ast.Tuple, ast.List)):
+            got = [ctx.proj.dotted(e, f.module, f) for e in d.elts]
+        want = ["merge_criteria.seqid", "merge_criteria.overlap_end_inclusive", "merge_criteria.strand", "merge_criteria.feature_type"]
+        ctx.ob("R2", got == want, "%s defaults to (same seqid, overlapping or adjacent, same strand, same type)" % f.name, func=f, sig="%s default criteria %s" % (f.name, got))
+    it = Interp(ctx)
     B = 6 if ctx.tier == "quick" else 9
+    grid = [v for v in itertools.product(range(B), repeat=4) if v[0] <= v[1] and v[2] <= v[3]]
+
+    def table(fn):
+        out = {}
+        for v in grid:
+            try:
+                r = it.apply(fn, [_feat("acc", start=v[0], end=v[1]), _feat("cur", start=v[2], end=v[3]), []])
+            except Unsupported as e:
+                ctx.require(False, "merge criterion outside the analysable subset: %s" % e)
+            out[v] = bool(r[1]) if r[0] == "return" else ("raise", r[1])
+        return out
+    for name, fld in (("seqid", "seqid"), ("strand", "strand"), ("feature_type", "featuretype")):
+        f = require_func(ctx, "merge_criteria." + name)
+        vals = {"seqid": ("chr1", "chr2"), "strand": ("+", "-"), "featuretype": ("exon", "CDS")}[fld]
+        res = {}
+        for x in vals:
+            for y in vals:
+                kw = {"chrom" if fld == "seqid" else "ft" if fld == "featuretype" else fld: None}
+                a_ = _feat("acc", **({"chrom": x} if fld == "seqid" else {"ft": x} if fld == "featuretype" else {"strand": x}))
+                b_ = _feat("cur", **({"chrom": y} if fld == "seqid" else {"ft": y} if fld == "featuretype" else {"strand": y}))
+                r = it.apply(FuncVal(f), [a_, b_, []])
+                res[(x, y)] = r[1] if r[0] == "return" else r
+        ok = all(bool(v) == (k[0] == k[1]) for k, v in res.items())
+        ctx.ob("R2", ok, "criterion %s compares the %s of run and feature" % (name, fld), func=f, sig="%s: accepts exactly equal %s" % (name, fld) if ok else "%s: %s" % (name, res))
+    specs = {
+        "overlap_end_inclusive": lambda v: v[0] <= v[2] <= v[1] + 1,
+        "overlap_start_inclusive": lambda v: v[0] <= v[3] + 1 <= v[1] + 1,
+        "overlap_any_inclusive": lambda v: (v[0] <= v[2] <= v[1] + 1) or (v[0] <= v[3] + 1 <= v[1] + 1),
+        "exact_coordinates_only": lambda v: v[2] == v[0] and v[3] == v[1],
+    }
+    words = {"overlap_end_inclusive": "acc.start <= cur.start <= acc.end + 1 (overlapping or adjacent to the right)",
+             "overlap_start_inclusive": "acc.start <= cur.end + 1 <= acc.end + 1", "overlap_any_inclusive": "either of the two", "exact_coordinates_only": "equal coordinates"}
+    tables = {}
     for name, spec in specs.items():
         f = require_func(ctx, "merge_criteria." + name)
-        r = [n for n in ast.walk(f.node) if isinstance(n, ast.Return)]
-        ctx.require(len(r) == 1, "criterion %s has no single return" % name)
-        try:
-            pr = py_pred(r[0].value, resolver)
-        except ValueError as e:
-            ctx.ob("R2", False, "criterion %s is a comparison of coordinates" % name, func=f, sig="%s: unreadable (%s)" % (name, e))
-            continue
-        bad = None
-        for vals in itertools.product(range(B), repeat=4):
-            env = dict(zip(names, vals))
-            if env["as_"] > env["ae"] or env["cs"] > env["ce"]:
-                continue
-            if bool(pr(env)) != bool(spec(env)):
-                bad = env
-                break
-        ctx.ob("R2", bad is None, "criterion %s accepts exactly %s" % (name, {
-            "overlap_end_inclusive": "acc.start <= cur.start <= acc.end + 1 (overlapping or adjacent to the right)",
-            "overlap_start_inclusive": "acc.start <= cur.end + 1 <= acc.end + 1",
-            "overlap_any_inclusive": "either of the two",
-            "exact_coordinates_only": "equal coordinates"}[name]), func=f,
-            sig="%s ≡ specification" % name if bad is None else "%s differs from its specification at %s" % (name, bad))
-        refl = all(pr({"as_": a, "ae": b, "cs": a, "ce": b}) for a in range(B) for b in range(a, B))
-        ctx.ob("R2", refl, "criterion %s is reflexive (a feature merges with itself) for start <= end" % name, func=f,
-               sig="%s reflexive" % name if refl else "%s not reflexive" % name, nontrivial=False)
-    thr_preds = {}
+        tb = table(FuncVal(f))
+        tables[name] = tb
+        bad = next((v for v in grid if tb[v] != bool(spec(v))), None)
+        ctx.ob("R2", bad is None, "criterion %s accepts exactly %s" % (name, words[name]), func=f,
+               sig="%s ≡ specification" % name if bad is None else "%s differs from its specification at acc=%d..%d cur=%d..%d (%s)" % ((name,) + bad + (tb[bad],)))
+        refl = all(tb[(a_, b_, a_, b_)] is True for a_ in range(B) for b_ in range(a_, B))
+        ctx.ob("R2", refl, "criterion %s is reflexive (a feature merges with itself) for start <= end" % name, func=f, sig="%s reflexive" % name if refl else "%s not reflexive" % name,
+               nontrivial=False)
+    thr = {}
     for name in ("overlap_end_threshold", "overlap_start_threshold", "overlap_any_threshold"):
         f = require_func(ctx, "merge_criteria." + name)
-        inner = [g for lst in f.nested.values() for g in lst]
-        ctx.require(inner, "criterion factory %s has no inner function" % name)
-        r = [n for n in ast.walk(inner[0].node) if isinstance(n, ast.Return)]
-        pr = py_pred(r[0].value, resolver)
-        refl = all(pr({"as_": a, "ae": b, "cs": a, "ce": b, "th": th}) for a in range(B) for b in range(a, B) for th in range(0, 4))
-        ctx.ob("R2", refl, "criterion %s(threshold >= 0) is reflexive" % name, func=inner[0], sig="%s reflexive" % name if refl else "%s not reflexive" % name)
-        thr_preds[name] = pr
-        mono = all((not pr(dict(zip(names, v), th=th))) or pr(dict(zip(names, v), th=th + 1)) for v in itertools.product(range(B), repeat=4)
-                   if v[0] <= v[1] and v[2] <= v[3] for th in range(0, 3))
-        ctx.ob("R2", mono, "criterion %s is monotone in its threshold (a larger tolerance accepts at least as much)" % name, func=inner[0],
+        thr[name] = {}
+        for th in range(0, 4):
+            r = it.apply(FuncVal(f), [th])
+            ctx.require(r[0] == "return" and not isinstance(r[1], (bool, int, type(None))), "criterion factory %s(%d) does not return a callable" % (name, th))
+            thr[name][th] = table(r[1])
+        refl = all(thr[name][th][(a_, b_, a_, b_)] is True for th in range(0, 4) for a_ in range(B) for b_ in range(a_, B))
+        ctx.ob("R2", refl, "criterion %s(threshold >= 0) is reflexive" % name, func=f, sig="%s reflexive" % name if refl else "%s not reflexive" % name)
+        mono = all((thr[name][th][v] is not True) or thr[name][th + 1][v] is True for th in range(0, 3) for v in grid)
+        ctx.ob("R2", mono, "criterion %s is monotone in its threshold (a larger tolerance accepts at least as much)" % name, func=f,
                sig="%s monotone in threshold" % name if mono else "%s not monotone in threshold" % name, nontrivial=False)
-        base = {"overlap_end_threshold": "overlap_end_inclusive", "overlap_start_threshold": None, "overlap_any_threshold": None}[name]
-        if base:
-            sp = specs[base]
-            same = all(bool(pr(dict(zip(names, v), th=1))) == bool(sp(dict(zip(names, v)))) for v in itertools.product(range(B), repeat=4)
-                       if v[0] <= v[1] and v[2] <= v[3])
-            ctx.ob("R2", same, "%s(1) coincides with %s" % (name, base), func=inner[0], sig="%s(1) ≡ %s" % (name, base) if same else "%s(1) differs from %s" % (name, base), nontrivial=False)
-    r2_threshold_relations(ctx, thr_preds, specs, names, B)
-
-
-def r2_threshold_relations(ctx, thr_preds, specs, names, B):
-    import itertools as it_
-    grid = [dict(zip(names, v)) for v in it_.product(range(B), repeat=4) if v[0] <= v[1] and v[2] <= v[3]]
+    f = ctx.proj.func("merge_criteria.overlap_end_threshold")
+    same = all(thr["overlap_end_threshold"][1][v] == tables["overlap_end_inclusive"][v] for v in grid)
+    ctx.ob("R2", same, "overlap_end_threshold(1) coincides with overlap_end_inclusive", func=f, sig="overlap_end_threshold(1) ≡ overlap_end_inclusive" if same else "overlap_end_threshold(1) differs from overlap_end_inclusive",
+           nontrivial=False)
     f = ctx.proj.func("merge_criteria.overlap_any_threshold")
-    if {"overlap_start_threshold", "overlap_end_threshold", "overlap_any_threshold"} <= set(thr_preds):
-        s_, e_, a_ = thr_preds["overlap_start_threshold"], thr_preds["overlap_end_threshold"], thr_preds["overlap_any_threshold"]
-        ok = all(bool(a_(dict(g, th=t))) == bool(s_(dict(g, th=t)) or e_(dict(g, th=t))) for g in grid for t in range(0, 4))
-        ctx.ob("R2", ok, "overlap_any_threshold(t) accepts exactly what overlap_start_threshold(t) or overlap_end_threshold(t) accepts", func=f,
-               sig="any_threshold ≡ start_threshold or end_threshold" if ok else "any_threshold differs from start_threshold or end_threshold")
-        ok = all(bool(s_(dict(g, th=0))) == bool(specs["overlap_start_inclusive"](g)) for g in grid)
-        ctx.ob("R2", ok, "overlap_start_threshold(0) coincides with overlap_start_inclusive", func=ctx.proj.func("merge_criteria.overlap_start_threshold"),
-               sig="start_threshold(0) ≡ start_inclusive" if ok else "start_threshold(0) differs from start_inclusive", nontrivial=False)
+    ok = all(thr["overlap_any_threshold"][t][v] == (thr["overlap_start_threshold"][t][v] is True or thr["overlap_end_threshold"][t][v] is True) for t in range(0, 4) for v in grid)
+    ctx.ob("R2", ok, "overlap_any_threshold(t) accepts exactly what overlap_start_threshold(t) or overlap_end_threshold(t) accepts", func=f,
+           sig="any_threshold ≡ start_threshold or end_threshold" if ok else "any_threshold differs from start_threshold or end_threshold")
+    ok = all(thr["overlap_start_threshold"][0][v] == tables["overlap_start_inclusive"][v] for v in grid)
+    ctx.ob("R2", ok, "overlap_start_threshold(0) coincides with overlap_start_inclusive", func=ctx.proj.func("merge_criteria.overlap_start_threshold"),
+           sig="start_threshold(0) ≡ start_inclusive" if ok else "start_threshold(0) differs from start_inclusive", nontrivial=False)
+    ctx.extra["criteria_grid_points"] = len(grid)
 
 
-def r6(ctx):
+def merge_semantics(ctx):
+    """merge(): evaluated abstractly on short start-ordered lists of features sitting on the threshold points of the
+    criteria; the outputs (which inputs are yielded as they are, which are children of which merged output, extents, ids,
+    what the inputs look like afterwards) are compared with the property."""
+    import collections
+    from ..absint import Interp, Opaque, Callback, Unsupported
     f = require_func(ctx, "interface.FeatureDB.merge")
-    init = require_func(ctx, "feature.Feature.__init__")
-    params = set(init.params) - {"self"}
-    # properties with setters map to real fields
-    feat = ctx.proj.cls("feature.Feature")
-    props = set()
-    for n in feat.node.body:
-        if isinstance(n, ast.FunctionDef) and any(isinstance(d, ast.Name) and d.id == "property" for d in n.decorator_list):
-            props.add(n.name)
-    stored = {}
-    for m in feat.methods.values():
-        for n in ast.walk(m.node):
-            if isinstance(n, ast.Assign):
-                for t in n.targets:
-                    if isinstance(t, ast.Attribute) and is_name(t.value, "self"):
-                        stored.setdefault(t.attr, m.qual)
-    # stores from outside the class on objects that are Features: receivers that flow from _feature_returner / loop items of merge
-    for g in ctx.proj.funcs.values():
-        if g.module.name not in ("interface", "create", "helpers", "convert"):
-            continue
-        if g.cls is feat:
-            continue
-        feature_like = set()
-        for p in g.params:
-            if p in ("feature", "f", "child", "parent", "merged", "current_merged"):
-                feature_like.add(p)
-        for n in ast.walk(g.node):
-            if isinstance(n, ast.Assign) and isinstance(n.targets[0], ast.Name) and isinstance(n.value, ast.Call) and call_attr(n.value) == "_feature_returner":
-                feature_like.add(n.targets[0].id)
-            if isinstance(n, ast.For) and isinstance(n.target, ast.Name) and g.name in ("merge", "create_splice_sites", "merge_all"):
-                feature_like.add(n.target.id)
-        for n in ast.walk(g.node):
-            if isinstance(n, ast.Assign):
-                for t in n.targets:
-                    if isinstance(t, ast.Attribute) and isinstance(t.value, ast.Name) and t.value.id in feature_like:
-                        stored.setdefault(t.attr, g.qual)
-    splats = []
-    for n in ast.walk(f.node):
-        if isinstance(n, ast.Assign) and isinstance(n.value, ast.Call) and call_attr(n.value) == "copy" and isinstance(n.value.func.value, ast.Call) \
-                and is_name(n.value.func.value.func, "vars"):
-            splats.append(n)
-    ctx.floor("R6", len(splats), 1, "vars(head).copy() splats in merge()")
-    for sp in splats:
-        dname = norm(sp.targets[0])
-        deleted = set()
-        for n in ast.walk(f.node):
-            if isinstance(n, ast.Delete):
-                for t in n.targets:
-                    if isinstance(t, ast.Subscript) and norm(t.value) == dname and const_str(t.slice):
-                        deleted.add(const_str(t.slice))
-            if isinstance(n, ast.Call) and call_attr(n) == "pop" and norm(n.func.value) == dname and n.args and const_str(n.args[0]):
-                deleted.add(const_str(n.args[0]))
-        keys = set(stored) - props
-        extra = sorted(k for k in keys - deleted if k not in params)
-        ctx.ob("R6", not extra,
-               "the instance dict splatted into the Feature constructor holds only constructor parameters: (attributes ever stored on Feature "
-               "objects) - (keys removed) ⊆ parameters of Feature.__init__ -- so objects produced by an earlier merge can be merged again",
-               node=sp, func=f,
-               sig="splat keys ⊆ Feature.__init__ parameters" if not extra else "splat carries %s, not a Feature.__init__ parameter (stored by %s)" % (
-                   extra, sorted({stored[k].split(".", 1)[1] for k in extra})),
-               detail=None if not extra else "merging an output of a previous merge() raises TypeError: unexpected keyword %r" % extra[0])
-        need_del = sorted(k for k in ("attributes", "extra", "dialect", "keep_order", "sort_attribute_values") if k not in deleted)
-        ctx.ob("R6", not need_del, "per-object state of the head (attributes, extra, dialect, print flags) is dropped from the splat, so the merged "
-               "feature starts with fresh containers and the database's settings", node=sp, func=f,
-               sig="splat drops attributes/extra/dialect/keep_order/sort_attribute_values" if not need_del else "splat keeps %s" % need_del)
-    fm = require_func(ctx, "interface._finalize_merge")
-    src = [n for n in ast.walk(fm.node) if isinstance(n, ast.Assign) and norm(n.targets[0]).endswith(".children")]
-    vals = sorted(norm(n.value) for n in src)
-    ok = vals == ["feature_children", "no_children"]
-    ctx.ob("R6", ok, "_finalize_merge attaches the run's members (or the empty constant) as .children", func=fm, sig="_finalize_merge children := %s" % vals)
-    g = [norm(n.test) for n in ast.walk(fm.node) if isinstance(n, ast.If)]
-    ctx.ob("R6", g == ["len(feature_children) > 1"], "a single-member run has no children (it is the input itself)", func=fm, sig="_finalize_merge guard %s" % g)
+    fp = [p for p in f.params if p != "self"][0]
+    feature_init = require_func(ctx, "feature.Feature.__init__")
+    ctor_params = set(feature_init.params) - {"self"}
+    built = []
+
+    def run(feats, counters=None, copy_args=True, **kw):
+        it = Interp(ctx)
+
+        def fr(i, pos, kw_, node):
+            extra_ = set(kw_) - ctor_params
+            built.append(dict(kw_))
+            if extra_:
+                from ..absint import RaiseEx
+                raise RaiseEx("TypeError", "__init__() got an unexpected keyword argument %r" % sorted(extra_)[0], node)
+            o = Opaque("merged", "Feature")
+            o.attrs.update(dict(id=None, seqid=None, source=".", featuretype=".", start=None, end=None, score=".", strand=".", frame=".", attributes={}, extra=[], bin=None,
+                                dialect=None, keep_order=False, sort_attribute_values=False, file_order=None))
+            o.attrs.update(kw_)
+            # a fresh Attributes mapping (the package class: stores wrap bare values in a list)
+            am = Opaque("attributes", "Attributes")
+            am.attrs["_d"] = {}
+            o.attrs["attributes"] = am
+            return o
+        it.summaries["interface.FeatureDB._feature_returner"] = fr
+        so = Opaque("self", "obj")
+        cnt = collections.defaultdict(int)
+        cnt.update(counters or {})
+        so.attrs["_autoincrements"] = cnt
+        a = {fp: feats}
+        a.update(kw)
+        try:
+            traces = it.run(f, a, self_obj=so, copy_args=copy_args)
+        except Unsupported as e:
+            ctx.require(False, "merge() outside the analysable subset: %s" % e)
+        ctx.require(len(traces) == 1, "merge() forks on concrete input (%d paths)" % len(traces))
+        t = traces[0]
+        outs = []
+        for e in t.events:
+            if e[0] == "yield":
+                y = e[1]
+                ch = y.attrs.get("children") if isinstance(y, Opaque) else None
+                outs.append((y, [c.name for c in ch] if isinstance(ch, (list, tuple)) else ch))
+        return outs, t, so
+
+    def shape(outs):
+        return [(y.name if y.name != "merged" else "merged(%s..%s)" % (y.attrs.get("start"), y.attrs.get("end")), ch) for y, ch in outs]
+    # ---- R1 partition / R3 extents / R5 ids
+    outs, t, so = run([_feat("A", start=10, end=20), _feat("B", start=15, end=40), _feat("C", start=100, end=120)])
+    ctx.ob("R1", shape(outs) == [("merged(10..40)", ["A", "B"]), ("C", [])],
+           "every input is either yielded unchanged with no children or is a child of exactly one merged output (overlapping neighbours form a run)", func=f,
+           sig="A=10..20, B=15..40, C=100..120 -> %s" % shape(outs))
+    outs, t, so = run([_feat("A", start=10, end=20), _feat("B", start=30, end=40), _feat("C", start=50, end=60), _feat("D", start=70, end=80)])
+    ctx.ob("R1", shape(outs) == [("A", []), ("B", []), ("C", []), ("D", [])], "features that do not join a run are yielded as they are, each once, in order", func=f,
+           sig="four disjoint features -> %s" % shape(outs))
+    outs, t, so = run([_feat("A", start=10, end=50), _feat("B", start=20, end=30), _feat("C", start=25, end=60)])
+    ctx.ob("R3", shape(outs) == [("merged(10..60)", ["A", "B", "C"])], "a merged output spans min start .. max end of its children (a nested member does not shrink the run)", func=f,
+           sig="A=10..50, B=20..30, C=25..60 -> %s" % shape(outs))
+    outs, t, so = run([_feat("A", start=10, end=20), _feat("B", start=21, end=30)])
+    ctx.ob("R1", shape(outs) == [("merged(10..30)", ["A", "B"])], "adjacent intervals join (default criteria)", func=f, sig="A=10..20, B=21..30 -> %s" % shape(outs))
+    outs, t, so = run([_feat("A", start=10, end=20), _feat("B", start=22, end=30)])
+    ctx.ob("R1", shape(outs) == [("A", []), ("B", [])], "intervals one base apart do not join", func=f, sig="A=10..20, B=22..30 -> %s" % shape(outs))
+    for label, b in (("another seqid", dict(chrom="chr2")), ("another strand", dict(strand="-")), ("another type", dict(ft="CDS"))):
+        outs, t, so = run([_feat("A", start=10, end=20), _feat("B", start=15, end=30, **b)])
+        ctx.ob("R1", shape(outs) == [("A", []), ("B", [])], "with the default criteria an overlapping feature of %s starts a new run" % label, func=f, sig="overlap, %s -> %s" % (label, shape(outs)))
+    outs, t, so = run([_feat("A", start=10, end=20), _feat("B", start=15, end=30), _feat("C", start=100, end=110), _feat("D", start=105, end=120), _feat("E", start=200, end=210)])
+    ctx.ob("R1", shape(outs) == [("merged(10..30)", ["A", "B"]), ("merged(100..120)", ["C", "D"]), ("E", [])], "after a run is emitted the next feature starts a new one; a pending head is emitted after the loop",
+           func=f, sig="two runs and a single -> %s" % shape(outs))
+    ids = [y.attrs.get("id") for y, ch in outs if y.name == "merged"]
+    ids_attr = [y.attrs["attributes"].attrs["_d"].get("ID") if isinstance(y.attrs.get("attributes"), Opaque) else y.attrs.get("attributes") for y, ch in outs if y.name == "merged"]
+    ctx.ob("R5", ids == ["exon_1", "exon_2"], "merged outputs carry fresh distinct ids of the form <type>_<n>", func=f, sig="ids of two merged runs: %s" % ids)
+    ctx.ob("R5", ids_attr == [["exon_1"], ["exon_2"]], "the fresh id is also the merged feature's ID attribute", func=f, sig="ID attributes of two merged runs: %s" % ids_attr, nontrivial=False)
+    ctx.ob("R5", dict(so.attrs["_autoincrements"]) == {"exon": 2}, "the per-type counter advances once per merged run", func=f, sig="counters after two runs: %s" % dict(so.attrs["_autoincrements"]),
+           nontrivial=False)
+    outs, t, so = run([_feat("A", start=10, end=20), _feat("B", start=15, end=30)], counters={"exon": 7})
+    ctx.ob("R5", [y.attrs.get("id") for y, ch in outs] == ["exon_8"], "numbering continues from the database's counters", func=f, sig="with counter 7 -> %s" % [y.attrs.get("id") for y, ch in outs],
+           nontrivial=False)
+    # mixed columns of a run (custom criteria that accept everything)
+    accept_all = Callback("accept_all", True)
+    outs, t, so = run([_feat("A", start=10, end=20, strand="+", ft="exon"), _feat("B", chrom="chr2", start=5, end=30, strand="-", ft="CDS", frame="1")], merge_criteria=[accept_all])
+    y = outs[0][0] if outs else None
+    got = (y.attrs.get("seqid"), y.attrs.get("strand"), y.attrs.get("featuretype"), y.attrs.get("frame"), y.attrs.get("start"), y.attrs.get("end")) if y is not None else None
+    ctx.ob("R3", got == ("chr1,chr2", ".", "sequence_feature", ".", 5, 30), "a run of mixed seqid / strand / frame / type is described as such; start and end are min and max", func=f,
+           sig="mixed run -> (seqid, strand, type, frame, start, end) = %s" % (got,))
+    # ---- criteria protocol
+    calls = []
+    rec = Callback("criterion", None, fn=lambda pos, kw: (calls.append([getattr(x, "name", [c.name for c in x] if isinstance(x, (list, tuple)) else x) for x in pos]), True)[1])
+    outs, t, so = run([_feat("A", start=10, end=20), _feat("B", start=100, end=120)], merge_criteria=[rec])
+    joins = [c for c in calls if len(c) == 3 and c[0] != c[1]]
+    ok = shape(outs) == [("merged(10..120)", ["A", "B"])] and joins and all(c[1] == "B" and c[2] == ["A"] for c in joins)
+    ctx.ob("R1", ok, "joining a run is decided by the merge criteria on (run so far, feature, components)", func=f,
+           sig="criterion called with %s -> %s" % (joins[:2], shape(outs)))
+    rej = Callback("reject", False)
+    outs, t, so = run([_feat("A", start=10, end=20), _feat("B", start=15, end=30)], merge_criteria=[accept_all, rej])
+    ctx.ob("R1", shape(outs) == [("A", []), ("B", [])], "a feature joins exactly when every criterion accepts", func=f, sig="one of two criteria rejects -> %s" % shape(outs))
+    outs, t, so = run([_feat("A", start=10, end=20), _feat("B", start=15, end=30)], merge_criteria=accept_all)
+    ctx.ob("R1", shape(outs) == [("merged(10..30)", ["A", "B"])], "a single criterion may be given without a list", func=f, sig="bare criterion -> %s" % shape(outs), nontrivial=False)
+    # ---- R4 inputs untouched / R6 children and re-mergeability
+    A, B, C = _feat("A", start=10, end=20), _feat("B", start=15, end=40), _feat("C", start=100, end=120)
+    before = [_snap(x) for x in (A, B, C)]
+    outs, t, so = run([A, B, C], copy_args=False)
+    after = []
+    for x in (A, B, C):
+        snap_attrs = dict(x.attrs)
+        snap_attrs.pop("children", None)
+        o2 = _feat(x.name)
+        o2.attrs.clear()
+        o2.attrs.update(snap_attrs)
+        after.append(_snap(o2))
+    changed = [x.name for x, b_, a_ in zip((A, B, C), before, after) if a_ != b_]
+    ctx.ob("R4", not changed, "the inputs' columns and attributes are unchanged: the head of a run is copied before its columns are updated", func=f,
+           sig="inputs unchanged by merge()" if not changed else "merge() changed its inputs: %s" % changed)
+    head = outs[0][0] if outs else None
+    ctx.ob("R4", head is not None and head is not A and head.name == "merged", "the merged output is a new object, not the first member of the run", func=f,
+           sig="merged output is %s" % ("a fresh feature" if head is not None and head is not A else "the input object itself"))
+    okf = bool(built) and all(set(k) <= ctor_params for k in built)
+    ctx.ob("R6", okf, "the instance dict splatted into the Feature constructor holds only constructor parameters", func=f,
+           sig="constructor receives %s" % sorted(set().union(*[set(k) for k in built]) - ctor_params) if not okf else "constructor keywords are all parameters of Feature.__init__")
+    fresh = [k for k in built if not ({"attributes", "extra", "dialect", "keep_order", "sort_attribute_values"} & set(k))]
+    ctx.ob("R6", len(fresh) == len(built) and bool(built), "per-object state of the head (attributes, extra, dialect, print flags) is dropped from the splat, so the merged feature starts with fresh containers",
+           func=f, sig="per-object keys dropped in %d of %d constructions" % (len(fresh), len(built)))
+    src = outs[0][0].attrs.get("source") if outs else None
+    ctx.ob("R6", isinstance(src, str) and sorted(src.split(",")) == ["src_A", "src_B"] if isinstance(src, str) else False, "a merged output's source lists its members' sources", func=f,
+           sig="merged source %r" % (src,), nontrivial=False)
+    ctx.ob("R6", outs and outs[0][1] == ["A", "B"] and outs[-1][1] == [], "_finalize_merge attaches the run's members as .children; a single-member run has no children", func=f,
+           sig="children of the outputs: %s" % [ch for _y, ch in outs])
+    # merging merged outputs again
+    M1 = _feat("M1", start=10, end=40, children=[_feat("a"), _feat("b")])
+    M2 = _feat("M2", start=35, end=60, children=())
+    built.clear()
+    it_ok = True
+    try:
+        outs, t, so = run([M1, M2])
+    except Exception:
+        raise
+    res = t.result
+    ctx.ob("R6", res[0] == "return" and shape(outs) == [("merged(10..60)", ["M1", "M2"])], "previously merged features (which carry .children) can be merged again", func=f,
+           sig="re-merge -> %s" % (shape(outs) if res[0] == "return" else "raises %s" % res[1]))
+    # same objects again: same result
+    A, B = _feat("A", start=10, end=20), _feat("B", start=15, end=40)
+    o1, _t, _s = run([A, B], copy_args=False)
+    o2, _t, _s = run([A, B], copy_args=False)
+    ctx.ob("R4", shape(o1) == shape(o2) == [("merged(10..40)", ["A", "B"])], "merging the same objects again gives the same result", func=f, sig="first %s, second %s" % (shape(o1), shape(o2)))
+    # a feature that is not accepted with itself
+    crit = Callback("not_reflexive_for_B", None, fn=lambda pos, kw: not (getattr(pos[0], "name", "") == "B" and getattr(pos[1], "name", "") == "B"))
+    outs, t, so = run([_feat("A", start=10, end=20), _feat("B", start=15, end=30), _feat("C", start=16, end=40)], merge_criteria=[crit])
+    names = [n for y, ch in outs for n in ([y.name] if y.name != "merged" else ch)]
+    ctx.ob("R1", sorted(names) == ["A", "B", "C"], "even with a criterion that rejects a feature against itself every input appears exactly once in the output", func=f,
+           sig="outputs cover %s" % names, nontrivial=False)
 
 
 def r7_r8(ctx):
-    f = require_func(ctx, "interface.FeatureDB.merge_all")
-    cfg = cfg_of(f)
-    mloop = None
-    for n in ast.walk(f.node):
-        if isinstance(n, ast.For) and isinstance(n.iter, ast.Call) and call_attr(n.iter) == "merge":
-            mloop = n
-    ctx.require(mloop is not None, "merge_all no longer loops over self.merge(...)")
-    mv = mloop.target.id
-    src = mloop.iter.args[0] if mloop.iter.args else None
-    ok = isinstance(src, ast.Call) and call_attr(src) == "all_features" and norm(kwarg(src, "order_by") or ast.Constant(value=None)) == "merge_order"
-    ctx.ob("R7", ok, "merge_all merges all features in merge_order", node=mloop, func=f, sig="merge_all source %s" % (norm(src) if src is not None else None))
-    mc_kw = kwarg(mloop.iter, "merge_criteria")
-    ctx.ob("R7", mc_kw is not None and norm(mc_kw) == "merge_criteria", "merge_all forwards the criteria", node=mloop, func=f,
-           sig="merge_all criteria %s" % (norm(mc_kw) if mc_kw is not None else None), nontrivial=False)
-    ins = [c for c in calls_in(f.node) if call_attr(c) == "_insert" and c.args and is_name(c.args[0], mv)]
-    g = [norm(t) for c in ins[:1] for t, pol in guards_of(c, mloop) if pol]
-    ok = len(ins) == 1 and g == ["%s.children" % mv]
-    ctx.ob("R7", ok, "one new feature is stored per multi-member run (and only for those)", func=f, sig="merge_all stores merged under %s" % g)
-    rel = [c for c in calls_in(f.node) if call_attr(c) == "add_relation"]
-    dele = [c for c in calls_in(f.node) if call_attr(c) == "delete"]
-    ok = len(rel) == 1 and [norm(a) for a in rel[0].args[:3]] == [mv, rel[0].args[1].id if isinstance(rel[0].args[1], ast.Name) else "?", "1"]
-    rl = enclosing(rel[0], ast.For) if rel else None
-    ok = ok and rl is not None and norm(rl.iter) == "%s.children" % mv and is_name(rel[0].args[1], rl.target.id)
-    ctx.ob("R7", ok, "every member is related to its merged feature at level 1", func=f, sig="merge_all relates: %s" % (norm(rel[0]) if rel else None))
-    ok = len(dele) == 1 and [norm(a) for a in dele[0].args] == ["%s.children" % mv]
-    ctx.ob("R7", ok, "...or, with exclude_components, the members are deleted", func=f, sig="merge_all deletes: %s" % (norm(dele[0]) if dele else None))
-    if rel and dele:
-        gr = [(norm(t), pol) for t, pol in guards_of(rel[0], mloop)]
-        gd = [(norm(t), pol) for t, pol in guards_of(dele[0], mloop)]
-        ok = ("exclude_components", False) in gr and ("exclude_components", True) in gd
-        ctx.ob("R7", ok, "exclude_components chooses between the two", func=f, sig="relate under %s / delete under %s" % (gr, gd), nontrivial=False)
-        ok = all(cfg.dominates(cfg.node_for(ins[0]).id, cfg.node_for(c).id) for c in (rel[0], dele[0])) if ins else False
-        ctx.ob("R7", ok, "the merged feature is stored before its members are related or deleted", func=f,
-               sig="insert dominates relate/delete" if ok else "members handled before the merged feature is stored", nontrivial=False)
-    ac = require_func(ctx, "interface.assign_child")
-    st = [n for n in ast.walk(ac.node) if isinstance(n, ast.Assign)]
-    ok = len(st) == 1 and norm(st[0].targets[0]) == "child.attributes['Parent']" and norm(st[0].value) == "parent['ID']"
-    ctx.ob("R7", ok, "a related member names the merged feature's ID as its Parent", func=ac, sig="assign_child: %s" % (norm(st[0]) if st else None))
-    # ---- R8
-    bp = require_func(ctx, "interface.FeatureDB.children_bp")
-    aug = [n for n in ast.walk(bp.node) if isinstance(n, ast.AugAssign) and isinstance(n.op, ast.Add)]
-    ok = len(aug) == 1 and isinstance(aug[0].value, ast.Call) and is_name(aug[0].value.func, "len")
-    lp = enclosing(aug[0], ast.For) if aug else None
-    ok = ok and lp is not None and is_name(aug[0].value.args[0], lp.target.id)
-    ctx.ob("R8", ok, "children_bp sums len(child) over the (optionally merged) children", func=bp, sig="children_bp adds %s" % (norm(aug[0].value) if aug else None))
-    ch = [c for c in calls_in(bp.node) if call_attr(c) == "children"]
-    ok = bool(ch) and norm(kwarg(ch[0], "featuretype") or ast.Constant(value=None)) == "child_featuretype" and const_str(kwarg(ch[0], "order_by")) == "start"
-    ctx.ob("R8", ok, "children are taken by type, ordered by start (merge() needs start order)", func=bp, sig="children_bp children: %s" % (norm(ch[0]) if ch else None))
-    mg = [c for c in calls_in(bp.node) if call_attr(c) == "merge"]
-    g = [norm(t) for c in mg[:1] for t, pol in guards_of(c, bp.node) if pol]
-    ok = len(mg) == 1 and g == ["merge"] and norm(kwarg(mg[0], "merge_criteria") or ast.Constant(value=None)) == "merge_criteria"
-    ctx.ob("R8", ok, "with merge=True the children are merged first, with the given criteria", func=bp, sig="children_bp merge: %s under %s" % (norm(mg[0]) if mg else None, g))
-    ln = require_func(ctx, "feature.Feature.__len__")
-    r = [n for n in ast.walk(ln.node) if isinstance(n, ast.Return)]
-    from .c18 import affine_len
-    ok = len(r) == 1 and affine_len(r[0].value) == ({"end": 1, "start": -1}, 1)
-    ctx.ob("R8", ok, "len(feature) = end - start + 1", func=ln, sig="__len__ = %s" % (norm(r[0].value) if r else None))
+    """merge_all and children_bp, evaluated abstractly with the database's query methods summarised (they return three
+    symbolic features: two overlapping, one apart)."""
+    import collections
+    from ..absint import Interp, Sym, Opaque, Callback, Unsupported
+    feature_init = require_func(ctx, "feature.Feature.__init__")
+    ctor_params = set(feature_init.params) - {"self"}
+
+    def stored():
+        return [_feat("A", start=10, end=20), _feat("B", start=15, end=40), _feat("C", start=100, end=120)]
+
+    def harness(log):
+        it = Interp(ctx)
+
+        def fr(i, pos, kw_, node):
+            o = Opaque("merged", "Feature")
+            o.attrs.update(dict(id=None, seqid=None, source=".", featuretype=".", start=None, end=None, score=".", strand=".", frame=".", extra=[], bin=None,
+                                dialect=None, keep_order=False, sort_attribute_values=False, file_order=None))
+            o.attrs.update(kw_)
+            am = Opaque("attributes", "Attributes")
+            am.attrs["_d"] = {}
+            o.attrs["attributes"] = am
+            return o
+        it.summaries["interface.FeatureDB._feature_returner"] = fr
+        it.summaries["interface.FeatureDB.all_features"] = lambda i, pos, kw, node: (log.append(("all_features", dict(kw))), stored())[1]
+        it.summaries["interface.FeatureDB.children"] = lambda i, pos, kw, node: (log.append(("children", [getattr(x, "name", x) for x in pos], dict(kw))), stored())[1]
+        it.summaries["interface.FeatureDB._insert"] = lambda i, pos, kw, node: log.append(("insert", pos[0].attrs.get("id") if isinstance(pos[0], Opaque) else pos[0]))
+        it.summaries["interface.FeatureDB.delete"] = lambda i, pos, kw, node: log.append(("delete", [getattr(x, "name", x) for x in (pos[0] if isinstance(pos[0], (list, tuple)) else [pos[0]])]))
+        it.summaries["interface.FeatureDB.add_relation"] = lambda i, pos, kw, node: log.append(
+            ("relate", pos[0].attrs.get("id") if isinstance(pos[0], Opaque) else pos[0], getattr(pos[1], "name", pos[1]), pos[2] if len(pos) > 2 else kw.get("level"), kw.get("child_func")))
+        return it
+
+    def run(func, args):
+        log = []
+        it = harness(log)
+        so = Opaque("self", "obj")
+        so.attrs["_autoincrements"] = collections.defaultdict(int)
+        try:
+            traces = it.run(func, args, self_obj=so)
+        except Unsupported as e:
+            ctx.require(False, "%s outside the analysable subset: %s" % (func.qual, e))
+        ctx.require(len(traces) == 1, "%s forks on concrete input (%d paths)" % (func.qual, len(traces)))
+        return traces[0], log
+    ma = require_func(ctx, "interface.FeatureDB.merge_all")
+    order = Sym("merge_order", "any", True)
+    t, log = run(ma, {"merge_order": order})
+    q = [e for e in log if e[0] == "all_features"]
+    ctx.ob("R7", len(q) == 1 and getattr(q[0][1].get("order_by"), "name", None) == "merge_order" and q[0][1].get("featuretype") is None, "merge_all merges all features in merge_order", func=ma,
+           sig="merge_all queries all_features(%s)" % (sorted((k, getattr(v, "name", v)) for k, v in q[0][1].items()) if q else None))
+    ins = [e for e in log if e[0] == "insert"]
+    ctx.ob("R7", ins == [("insert", "exon_1")], "one new feature is stored per multi-member run (and only for those)", func=ma, sig="merge_all stores merged under %s" % [e[1] for e in ins])
+    rel = [e for e in log if e[0] == "relate"]
+    ctx.ob("R7", [(e[1], e[2], e[3]) for e in rel] == [("exon_1", "A", 1), ("exon_1", "B", 1)] and not [e for e in log if e[0] == "delete"],
+           "every member is related to its merged feature at level 1", func=ma, sig="merge_all relations %s" % [(e[1], e[2], e[3]) for e in rel])
+    order_ok = [e[0] for e in log if e[0] in ("insert", "relate", "delete")][:1] == ["insert"]
+    ctx.ob("R7", order_ok, "the merged feature is stored before its members are related or deleted", func=ma, sig="first database effect: %s" % [e[0] for e in log if e[0] in ("insert", "relate", "delete")][:1], nontrivial=False)
+    res = t.result[1] if t.result[0] == "return" else None
+    ctx.ob("R7", isinstance(res, list) and [getattr(x, "name", x) for x in res] == ["merged"], "merge_all returns the merged features it stored", func=ma,
+           sig="merge_all returns %s" % ([getattr(x, "name", x) for x in res] if isinstance(res, list) else t.result[:2]), nontrivial=False)
+    cf = rel[0][4] if rel else None
+    if cf is not None:
+        # the child_func names the merged feature's ID as the member's Parent
+        it = harness([])
+        parent = _feat("P")
+        parent.attrs["attributes"] = {"ID": ["exon_1"]}
+        child = _feat("c")
+        child.attrs["attributes"] = {"ID": ["c"]}
+        r = it.apply(cf, [parent, child])
+        got = child.attrs["attributes"].get("Parent") if isinstance(child.attrs.get("attributes"), dict) else None
+        rv = r[1] if r[0] == "return" else None
+        if isinstance(rv, Opaque) and isinstance(rv.attrs.get("attributes"), dict):
+            got = rv.attrs["attributes"].get("Parent")
+        okp = got in (["exon_1"], "exon_1") or (isinstance(got, list) and got and got[0] in ("exon_1", ["exon_1"]))
+        ctx.ob("R7", okp, "a related member names the merged feature's ID as its Parent", func=ma, sig="member Parent := %r" % (got,))
+    t, log = run(ma, {"exclude_components": True})
+    dels = [e for e in log if e[0] == "delete"]
+    ctx.ob("R7", dels == [("delete", ["A", "B"])] and not [e for e in log if e[0] == "relate"] and [e for e in log if e[0] == "insert"] == [("insert", "exon_1")],
+           "...or, with exclude_components, the members are deleted (exclude_components chooses between the two)", func=ma,
+           sig="exclude_components: deletes %s, relations %d" % ([e[1] for e in dels], len([e for e in log if e[0] == "relate"])))
+    crit = Callback("accept_all", True)
+    t, log = run(ma, {"merge_criteria": [crit]})
+    rel = [e for e in log if e[0] == "relate"]
+    ctx.ob("R7", [e[2] for e in rel] == ["A", "B", "C"], "merge_all forwards the criteria", func=ma, sig="with an accept-all criterion members related: %s" % [e[2] for e in rel])
+    # ---- children_bp
+    cb = require_func(ctx, "interface.FeatureDB.children_bp")
+    cft = Sym("child_featuretype", "str", True)
+    t, log = run(cb, {"feature": _feat("G", ft="gene"), "child_featuretype": cft})
+    ctx.ob("R8", t.result == ("return", 11 + 26 + 21), "children_bp sums len(child) over the children (len = end - start + 1)", func=cb, sig="children 10..20, 15..40, 100..120 -> %s" % (t.result[1:2] if t.result[0] == "return" else t.result[:2],))
+    q = [e for e in log if e[0] == "children"]
+    ok = len(q) == 1 and q[0][1][:1] == ["G"] and getattr(q[0][2].get("featuretype"), "name", None) == "child_featuretype" and q[0][2].get("order_by") == "start"
+    ctx.ob("R8", ok, "children are taken by type, ordered by start (merge() needs start order)", func=cb, sig="children_bp queries children(%s)" % (sorted((k, getattr(v, "name", v)) for k, v in q[0][2].items()) if q else None))
+    t, log = run(cb, {"feature": _feat("G", ft="gene"), "merge": True})
+    ctx.ob("R8", t.result == ("return", 31 + 21), "with merge=True the children are merged first: the result is the size of their union", func=cb,
+           sig="merged children -> %s" % (t.result[1:2] if t.result[0] == "return" else t.result[:2],))
+    t, log = run(cb, {"feature": _feat("G", ft="gene"), "merge": True, "merge_criteria": [crit]})
+    ctx.ob("R8", t.result == ("return", 111), "...with the given criteria", func=cb, sig="merged with an accept-all criterion -> %s" % (t.result[1:2] if t.result[0] == "return" else t.result[:2],), nontrivial=False)
 
 
 def check(ctx):
     ctx.explanation = (
-        "merge() is decided by path enumeration over its loop body's CFG (acyclic within one pass): along every path an abstract state "
-        "(head pending / emitted, disposition of the loop item, children reset, id reset) is simulated and must discharge the partition "
-        "typestate; stores into the head must be dominated by the copy guard; extent updates are compiled and compared with min/max on a "
-        "grid; interval criteria are compiled and compared with their specification on a grid that is complete for difference "
-        "constraints, and checked reflexive; the vars()-splat is checked against every attribute ever stored on Feature objects. "
-        "merge_all / children_bp are def-use facts. Does not decide extents = interval union for every multiset, nor idempotence.")
-    r1_r4_r5(ctx)
+        "merge() is evaluated abstractly (partitioned dataflow; no execution) on short start-ordered lists of features placed on the threshold "
+        "points of the criteria: which inputs come out unchanged, which become children of which merged output, extents, mixed-column "
+        "descriptions, fresh ids and counters, the arguments the criteria receive, the keywords reaching the Feature constructor, the inputs "
+        "before and after, re-merging merged outputs. Every shipped criterion and threshold factory is evaluated on a grid complete for "
+        "difference constraints and compared with its specification (and for reflexivity / monotonicity). merge_all / children_bp are def-use "
+        "facts. Does not decide extents = interval union for every multiset.")
+    merge_semantics(ctx)
     r2(ctx)
-    r6(ctx)
     r7_r8(ctx)
